@@ -42,7 +42,7 @@ def main():
     prop = meta["property"]
     checks = [c for c in a.checks.split(",") if c] or [prop]
     demo = next((os.path.join(mutdir, f) for f in ("demo.rs",) if os.path.exists(os.path.join(mutdir, f))), None)
-    pkg = meta.get("demo_package", "packages/push")
+    pkg = meta.get("demo_package", "packages/push").split()[0].rstrip("/")
     confirm = {}
     if not a.skip_confirm:
         sh("git checkout -- . && git clean -fdq packages", cwd=wt)
